@@ -25,7 +25,7 @@ from typing import Dict, List, Optional, Set, Tuple
 
 from asl.absint import UNKNOWN as UNKNOWN_, AbsEval, Machine
 from asl.cfg import Node, cfg_of
-from asl.flow import reaching
+from asl.flow import node_defs, reaching
 from asl.loader import AnalysisError, Unit, norm, own_nodes
 from asl.values import USERISH, Val, roles_of_annotation
 from .common import make_resolver, real_units, uncast, uncast_deep
@@ -120,6 +120,7 @@ def run(ctx) -> None:
     ctx.rule("R03.11", "what an operation raises or returns does not depend on what the source's aclose() returns: no __aexit__ of "
                        "the library hands a value back that it did not derive from the exception (R06.3, shared)")
     c06._aexit_falsy(_Rel(ctx, "R03.11"))
+    r03_16(ctx)
     ctx.floor("awaitified_calls", 8)
     ctx.floor("awaitify_sites", 10)
     ctx.floor("iterable_params", 25)
@@ -289,6 +290,12 @@ def r03_1(ctx) -> None:
                               f"user callable `{norm(call.func)}` is called without being routed through awaitify: a "
                               f"synchronous callable's plain result cannot be awaited and an awaitable-returning one "
                               f"(async def, partial, callable object) is not detected", node=n)
+                    if ok:
+                        # (an awaitified callable kept in a field / handed to a helper: the same call-and-await discipline)
+                        if parents is None:
+                            parents = _parents(u.node)
+                        if _awaited(u, cfg, n, parents)[0]:
+                            _same_protection(ctx, u, cfg, n, parents)
             acall = [a for a in fv if a[0] == "acall"]
             if acall and not raw:
                 ctx.count("awaitified_calls")
@@ -329,6 +336,27 @@ def _same_protection(ctx, u: Unit, cfg, n: Node, parents) -> None:
                   f"`{norm(call.func)}(...)` is called outside the protection that covers `{norm(m.ast)}`: a synchronous "
                   "callable fails at the call, an asynchronous one at the await — the two flavours are handled differently",
                   node=n)
+        # ... and nothing that outlives a failure happens in between: a field or container written after the call and before
+        # the await is written when an asynchronous callable fails, and not when a synchronous one does
+        from asl.flow import find_path
+        between = reachable_between(n, m)
+        effects = [x for x in between if x.kind == "store" and any(isinstance(t_, (ast.Attribute, ast.Subscript))
+                                                                      for t_ in x.info.get("targets", []))]
+        effects += [x for x in between if x.kind in ("yield", "await", "pull", "enter") and x is not m]
+        ctx.check(not effects, "R03.7", u, effects[0].ast if effects else call,
+                  "nothing observable happens between calling the awaitified callable and awaiting its result"
+                  if not effects else
+                  f"`{norm(effects[0].ast).splitlines()[0][:70]}` happens after `{norm(call.func)}(...)` was called and before its result is "
+                  "awaited: when the callable fails, a synchronous one has not got this far and an asynchronous one has — the "
+                  "state left behind differs between the flavours", node=effects[0] if effects else n)
+
+
+def reachable_between(a: Node, b: Node):
+    """nodes on normal-edge paths from a (exclusive) to b (exclusive)"""
+    from asl.flow import reachable, reachable_back
+    fwd = reachable([s_ for lab, s_ in a.succ if lab not in ("e", "p")], stop=lambda x: x is b, edge_ok=lambda p_, lab, q_: lab not in ("e", "p"))
+    back = reachable_back([p_ for lab, p_ in b.pred if lab not in ("e", "p")], labels=("n", "t", "f", "stop", "h"), stop=lambda x: x is a)
+    return [x for x in fwd if x in back and x is not a and x is not b]
 
 
 def awaitify_argument(ctx, rid: str, u: Unit, n: Node) -> None:
@@ -351,6 +379,64 @@ def awaitify_argument(ctx, rid: str, u: Unit, n: Node) -> None:
 
 HIGHER_ORDER = {"sorted", "min", "max", "map", "filter", "reduce", "sort", "accumulate", "starmap", "takewhile", "dropwhile",
                 "filterfalse", "groupby", "nlargest", "nsmallest", "merge", "bisect", "insort", "bisect_left", "bisect_right"}
+
+
+def r03_16(ctx, rid: str = "R03.16", modules=None) -> None:
+    """An iterable argument is turned into an iterator once.  A list can be iterated again from its start, an iterator or an
+    async generator goes on where it was: an operation that hands the argument to ``aiter`` / ``ScopedIter`` / a tool and
+    later uses the *argument* again (instead of the iterator it made) sees the first items twice for one flavour and not
+    for the other."""
+    from asl.flow import reachable
+    ctx.rule(rid, "an iterable argument is converted into an iterator once: after it was handed to aiter / ScopedIter / a library "
+                  "tool, the argument itself is not iterated or handed on again (a re-iterable flavour would start over)")
+    sites = 0
+    for u in real_units(ctx):
+        if (modules is not None and u.module.short not in modules) or u.kind not in ("coroutine", "asyncgen", "sync"):
+            continue
+        iter_params = {p_.arg for p_ in u.params() if "ITERABLE" in roles_of_annotation(p_.annotation)
+                       and not norm(p_.annotation).startswith(("Tuple", "tuple", "List", "list"))}
+        va = u.node.args.vararg
+        iter_params -= {va.arg} if va is not None else set()
+        if not iter_params or u.cls is not None and u.node.name != "__init__" and False:
+            continue
+        cfg = cfg_of(u)
+
+        def uses(n, pname):
+            """call / iteration nodes that consume the bare parameter"""
+            if n.tag:
+                return False
+            if n.kind == "call":
+                fname = norm(n.ast.func).split(".")[-1]
+                if fname in ("isinstance", "hasattr", "repr", "type", "id", "callable", "getattr", "len", "cast"):
+                    return False
+                return any(isinstance(a_, ast.Name) and a_.id == pname for a_ in list(n.ast.args) + [k.value for k in n.ast.keywords]) \
+                    or any(isinstance(a_, ast.Starred) and isinstance(a_.value, ast.Name) and a_.value.id == pname for a_ in n.ast.args)
+            if n.kind in ("aiter", "siter"):
+                it_ = n.info.get("iter")
+                return isinstance(it_, ast.Name) and it_.id == pname
+            if n.kind == "enter":
+                cm_ = n.info.get("cm")
+                return isinstance(cm_, ast.Call) and any(isinstance(a_, ast.Name) and a_.id == pname for a_ in cm_.args)
+            return False
+        for pname in sorted(iter_params):
+            rebinds = [n for n in cfg.nodes if n.kind in ("store", "del") and not n.tag and pname in node_defs(n)]
+            consumers = [n for n in cfg.nodes if uses(n, pname)]
+            for first in consumers:
+                after = reachable([s_ for lab, s_ in first.succ if lab not in ("e", "p")],
+                                  stop=lambda x: x in rebinds, edge_ok=lambda a, lab, b: lab not in ("e", "p"))
+                again = [n for n in consumers if n in after and n is not first and n not in rebinds
+                         and not (first.kind == "call" and n.kind == "enter" and any(first.ast is x for x in ast.walk(n.info.get("cm"))))]
+                # (``async with ScopedIter(p)``: the call node and the enter node are one conversion)
+                again = [n for n in again if not (n.kind == "call" and first.kind == "enter")]
+                if again and first not in after:
+                    sites += 1
+                    ctx.fail(rid, u, again[0].ast if again[0].ast is not None else pname,
+                             f"the iterable argument `{pname}` is consumed again after it was handed to "
+                             f"`{norm(first.ast).splitlines()[0][:60]}`: a list starts over from its first item, an iterator or async "
+                             "generator continues - the flavours of one argument give different results", node=again[0])
+                    break
+    if not sites:
+        ctx.ok(rid, "package", "every iterable argument is converted once")
 
 
 def r03_14(ctx, rid: str = "R03.14") -> None:
@@ -460,13 +546,15 @@ def r03_12(ctx, modules=None) -> None:
         ctx.ok("R03.12", "package", "no truth test of a callable argument")
 
 
-def r03_10(ctx) -> None:
+def r03_10(ctx, modules=None) -> None:
     """The flavours of a user callable (def, async def, partial, callable object, bound method) have one thing in
     common: they can be called.  Reading any other attribute of it unconditionally (``function.__name__``) singles
     out the flavours that lack it — a callable object returning a coroutine has no ``__name__``."""
     from asl.values import roles_of_annotation
     ctx.rule("R03.10", "no attribute of a user callable is read unconditionally (only calling it, or getattr with a default)")
     for u in real_units(ctx):
+        if modules is not None and u.module.short not in modules:
+            continue
         callables = {p.arg for p in u.params() if "CALLABLE" in roles_of_annotation(p.annotation)
                      and not ({"ITERABLE", "ITERATOR"} & roles_of_annotation(p.annotation))}
         if not callables:
@@ -560,8 +648,10 @@ def _awaited(u: Unit, cfg, n: Node, parents) -> Tuple[bool, str]:
 
 
 # --------------------------------------------------------------------------- R03.2
-def r03_2(ctx) -> None:
+def r03_2(ctx, modules=None) -> None:
     for u in real_units(ctx):
+        if modules is not None and u.module.short not in modules:
+            continue
         iter_params = {p.arg for p in u.params() if "ITERABLE" in roles_of_annotation(p.annotation)
                        and not norm(p.annotation).startswith(("Tuple", "tuple", "List", "list", '"tuple', '"list', "'tuple", "'list"))}
         # ``Iterable[Any]`` element annotations of an outer iterable (starmap) are not parameters
@@ -624,6 +714,24 @@ def r03_2(ctx) -> None:
                     ctx.fail("R03.2", u, c, f"iterable parameter `{nm}` is type-tested against the synchronous "
                              f"{sync}: objects that are iterable only through __getitem__ (or sync/async flavours) "
                              f"are treated differently, although aiter() accepts them", line=c.lineno)
+        # ``len(iterable)`` / ``iterable.__len__()`` / ``operator.length_hint``: only sized synchronous containers have a length, so a
+        # decision taken on it treats the flavours of one argument differently (also when TypeError is handled: the other
+        # branch is then the only one an (async) iterator ever takes)
+        if ctx.pkg.canonical(u) not in DIRECT_ITERATION_OK:
+            for n in cfg.nodes:
+                if n.kind != "call" or n.tag or len(n.ast.args) != 1 or norm(n.ast.func).split(".")[-1] not in ("len", "length_hint"):
+                    continue
+                r_ = ctx.pkg.resolve_expr_global(u.module, n.ast.func)
+                if r_.kind not in ("builtin", "stdlib"):
+                    continue
+                v0 = ctx.vals.expr(u, n.ast.args[0], n)
+                hit = [a for a in v0 if a[0] == "user" and ":" in str(a[1]) and str(a[1]).split(":")[-1] in iter_params
+                       and str(a[1]).startswith(u.short + ":")]
+                if hit:
+                    bad += 1
+                    ctx.fail("R03.2", u, n.ast, f"`{norm(n.ast)}` asks the iterable argument for its length: a list has one, an "
+                             "iterator or an asynchronous iterable of the same items has none - the flavours of one and the same "
+                             "argument take different paths", node=n)
         # ... the same for the *elements* of a ``*iterables`` parameter, wherever the test sits (a comprehension filter):
         # ``isinstance(it, Sized)`` / ``len(it)`` single out synchronous containers among the arguments
         if va is not None and "ITERABLE" in roles_of_annotation(va.annotation) and ctx.pkg.canonical(u) not in DIRECT_ITERATION_OK:
